@@ -196,6 +196,12 @@ def _worker_main():  # pragma: no cover - runs in the subprocess
             fk = lambda x: [[int(v) for v in x[b].reshape(-1).tolist()] for b in range(x.shape[0])]  # noqa: E731
             res["ink"], res["tgk"] = fk(ik), fk(tk)
             res["k_integral"] = bool((ik == ik.round()).all() and (tk == tk.round()).all())
+        if case["kind"] == "half" and case["dir"].startswith("diagonal"):
+            xv, yv = torch.meshgrid(torch.linspace(-1, 1, H), torch.linspace(-1, 1, W), indexing="ij")
+            fl = ((xv + yv) if case["dir"] == "diagonal_right" else (xv - yv)) <= 0
+            sgn = 1 if case["dir"] == "diagonal_right" else -1
+            ex = [[(_coord(H, i) + sgn * _coord(W, j)) <= 0 for j in range(W)] for i in range(H)]
+            res["diag_exact"] = bool(fl.tolist() == ex)
         st1 = sp.rng.get_state()
         res["rng_restored"] = bool(st0[0] == st1[0] and (st0[1] == st1[1]).all() and st0[2:] == st1[2:])
         res["calls"] = [dict(c) for c in calls]
@@ -388,28 +394,6 @@ def _coord(n: int, i: int) -> Fraction:
     return Fraction(-1) if n <= 1 else Fraction(2 * i, n - 1) - 1
 
 
-def _linspace_f32(n: int) -> list[float]:
-    """torch.linspace(-1, 1, n) in float32 (symmetric evaluation around the midpoint, as the CPU kernel does)"""
-    if n == 1:
-        return [-1.0]
-    step = _f32(2.0 / (n - 1))
-    half = n // 2
-    return [_f32(-1.0 + _f32(step * i)) if i < half else _f32(1.0 - _f32(step * (n - 1 - i))) for i in range(n)]
-
-
-def _diag_float_agrees(H: int, W: int, d: str) -> bool:
-    xs, ys = _linspace_f32(H), _linspace_f32(W)
-    for i in range(H):
-        for j in range(W):
-            if d == "diagonal_right":
-                fl, ex = _f32(xs[i] + ys[j]) <= 0, _coord(H, i) + _coord(W, j) <= 0
-            else:
-                fl, ex = _f32(xs[i] - ys[j]) <= 0, _coord(H, i) - _coord(W, j) <= 0
-            if fl != ex:
-                return False
-    return True
-
-
 # ==================================================================================================
 # case generation
 def _gen_mask(rng, H, W, mtype):
@@ -559,16 +543,22 @@ def _protocol(case, res):
         return None, None, "pipeline-level: oracle only"
     if res.get("err") == "Timeout":
         return None, None, "timeout"
-    log = res.get("log", [])
-    seeds = [e for e in log if e[0] == "seed"]
-    rints = [e for e in log if e[0] == "randint"]
-    chs = [e for e in log if e[0] == "choice"]
+    # the recorded draws, per sample: every split starts with `rng.seed(seed)` (temp_seed)
+    per: list[dict] = []
+    for e in res.get("log", []):
+        if e[0] == "seed":
+            per.append({"seed": e[1]})
+        elif per:
+            per[-1][e[0]] = e
     calls = res.get("calls", [])
 
     def ratio_of(b):
-        idx = rints[b][3] if b < len(rints) else 0
+        idx = per[b]["randint"][3] if b < len(per) and "randint" in per[b] else 0
         p, q = case["ratios"][idx if idx < len(case["ratios"]) else 0]
         return idx, p, q
+
+    def choice_of(b):
+        return per[b]["choice"] if b < len(per) and "choice" in per[b] else None
 
     if level == "split":
         a0, a1 = case["a"]
@@ -576,7 +566,7 @@ def _protocol(case, res):
         if kind == "half":
             ln = "hsplit " + _grp([H, W, keep, a0, a1, DIRS.index(case["dir"])], case["masks"][0], acs0)
             ans = ("ok " + _grp(res["input"][0], res["target"][0])) if res["ok"] else _err(res)
-            if case["dir"].startswith("diagonal") and not _diag_float_agrees(H, W, case["dir"]):
+            if case["dir"].startswith("diagonal") and res["ok"] and not res.get("diag_exact", False):
                 return None, None, "diag-float-boundary"
             return ln, ans, ""
         idx, p, q = ratio_of(0)
@@ -596,15 +586,16 @@ def _protocol(case, res):
         # uniform
         nfree = sum(_free(case, 0))
         cnt = _count_floor_f32(nfree, p, q)
-        chosen = chs[0][5] if chs else []
+        ch = choice_of(0)
+        chosen = ch[5] if ch else []
         ln = "usplit " + _grp([H, W, keep, a0, a1, cnt, p, q], case["masks"][0], acs0, chosen)
         if not res["ok"]:
             return ln, _err(res), ""
-        return ln, "ok " + _grp(res["input"][0], res["target"][0], [chs[0][2], chs[0][4]] if chs else []), ""
+        return ln, "ok " + _grp(res["input"][0], res["target"][0], [ch[2], ch[4]] if ch else []), ""
     # ---- forward
     a0, a1 = case["a"]
     kcode = {"gauss": 0, "uniform": 1, "half": 2}[kind]
-    if kind == "half" and case["dir"].startswith("diagonal") and not _diag_float_agrees(H, W, case["dir"]):
+    if kind == "half" and case["dir"].startswith("diagonal") and res["ok"] and not res.get("diag_exact", False):
         return None, None, "diag-float-boundary"
     groups = [[kcode, B, C, H, W, keep, a0, a1, DIRS.index(case.get("dir", "vertical")), case["use_seed"]]]
     for b in range(B):
@@ -612,7 +603,7 @@ def _protocol(case, res):
         fn = [ord(ch) for ch in str(case["filename"][b])]
         sl = [ord(ch) for ch in str(case["slice_no"][b])]
         idx, p, q = ratio_of(b)
-        tup = (seeds[b][1] or []) if b < len(seeds) else []
+        tup = (per[b]["seed"] or []) if b < len(per) else []
         d0, d1, c, seed = [], [], 0, 0
         if kind == "gauss":
             c = _count_ceil_f32(sum(_reduced(case, b)), p, q)
@@ -625,7 +616,7 @@ def _protocol(case, res):
                 d0, d1 = [x for x, _ in st], [y for _, y in st]
         elif kind == "uniform":
             c = _count_floor_f32(sum(_free(case, b)), p, q)
-            d0 = chs[b][5] if b < len(chs) else []
+            d0 = choice_of(b)[5] if choice_of(b) else []
         groups += [case["masks"][b], acsb, fn, sl, case["kspace"][b], [c, p, q, idx, seed], tup, d0, d1]
     ln = "fwd " + _grp(*groups)
     if not res["ok"]:
